@@ -1,1 +1,1 @@
--- property theorems (one module per property)
+import EdzedProps.C20
